@@ -19,7 +19,7 @@ TRUSTED = ['selection model lean/PlumpyModel/Expose/Model.lean (hand-written mir
 NAMES = ['a', 'ab', 'abc', 'b', 'a_b', 'x']
 LEAF_ATTRS = [dict(), dict(valid_type=int), dict(required=False), dict(default=3), dict(help='h'), dict(valid_type=str, required=False),
               dict(default={'cut': [1, 2]})]       # a mutable default: changed IN PLACE by the independence probe
-NS_PROPS = ['dynamic', 'required', 'valid_type', 'help', 'populate_defaults']
+NS_PROPS = ['dynamic', 'required', 'valid_type', 'help', 'populate_defaults', 'default']
 
 
 def gen_tree(rng, depth, top=True):
@@ -37,6 +37,8 @@ def gen_tree(rng, depth, top=True):
                 props['help'] = 'ns-' + nm
             if rng.random() < 0.3:
                 props['populate_defaults'] = False
+            if rng.random() < 0.3:
+                props['unit'] = 'eV'          # a PortNamespace SUBCLASS carrying extra state (class UnitNS below)
             out.append((nm, props, gen_tree(rng, depth - 1, top=False)))
         else:
             out.append((nm, rng.randrange(len(LEAF_ATTRS)), None))
@@ -116,8 +118,9 @@ def gen_case(rng):
     r = rng.random()
     if r < 0.35:
         opts = {}
-        for k in rng.sample(['dynamic', 'required', 'help', 'populate_defaults'], rng.randint(1, 2)):
-            opts[k] = {'dynamic': True, 'required': False, 'help': 'override', 'populate_defaults': False}[k]
+        for k in rng.sample(['dynamic', 'required', 'help', 'populate_defaults', 'default', 'default'], rng.randint(1, 2)):
+            opts[k] = {'dynamic': True, 'required': False, 'help': 'override', 'populate_defaults': False,
+                       'default': rng.choice(['UNSPECIFIED', {'y': 2}])}[k]       # 'UNSPECIFIED' stands for plumpy.ports.UNSPECIFIED
     elif r < 0.42:
         opts = {'no_such_property': 1}
     top = {}
@@ -125,6 +128,8 @@ def gen_case(rng):
         top['dynamic'] = rng.random() < 0.5
     if rng.random() < 0.3:
         top['help'] = 'top'
+    if rng.random() < 0.35:
+        top['default'] = {'x': 1}         # the source namespace declares a default of its own
     kind = rng.choice(['inputs', 'outputs'])
     return dict(tree=tree, ex=ex, inc=inc, ns=ns, opts=opts, top=top, kind=kind)
 
@@ -135,14 +140,32 @@ def build(ns, tree, plumpy):
         if sub is None:
             ns[nm] = InputPort(nm, **copy.deepcopy(LEAF_ATTRS[attr]))
         else:
-            ns[nm] = PortNamespace(nm, **attr)
+            if 'unit' in attr:
+                ns[nm] = unit_ns_class()(nm, **{k: v for k, v in attr.items() if k != 'unit'})
+                ns[nm].unit = attr['unit']
+            else:
+                ns[nm] = PortNamespace(nm, **attr)
             build(ns[nm], sub, plumpy)
+
+
+_UNIT_NS = []
+
+
+def unit_ns_class():
+    if not _UNIT_NS:
+        from plumpy.ports import PortNamespace
+
+        class UnitNS(PortNamespace):
+            """a PortNamespace subclass with extra state and behaviour, as applications define them"""
+            unit = None
+        _UNIT_NS.append(UnitNS)
+    return _UNIT_NS[0]
 
 
 def snapshot(ns):
     """canonical deep description of a port namespace (properties + ports), for comparisons"""
     from plumpy.ports import PortNamespace
-    d = {'__props__': tuple((k, repr(getattr(ns, k, None))) for k in NS_PROPS)}
+    d = {'__props__': tuple((k, repr(getattr(ns, k, None))) for k in NS_PROPS) + (('class', type(ns).__name__), ('unit', getattr(ns, 'unit', None)))}
     for k, v in ns.items():
         if isinstance(v, PortNamespace):
             d[k] = snapshot(v)
@@ -210,7 +233,9 @@ def run_impl(case):
     expose = getattr(Dst.spec(), 'expose_' + kind)
     err = None
     try:
-        expose(Src, namespace=nsname, exclude=ex, include=inc, namespace_options=dict(opts) if opts is not None else None)
+        from plumpy.ports import UNSPECIFIED
+        real_opts = None if opts is None else {k: (UNSPECIFIED if v == 'UNSPECIFIED' else copy.deepcopy(v)) for k, v in opts.items()}
+        expose(Src, namespace=nsname, exclude=ex, include=inc, namespace_options=real_opts)
     except Exception as e:  # noqa
         err = type(e).__name__
     obs = dict(error=err, paths=None)
@@ -243,7 +268,7 @@ def run_impl(case):
     src_props = dict(src_before['__props__'])
     for k in NS_PROPS:
         have = repr(getattr(target, k, None))
-        exp = repr(opts[k]) if (opts and k in opts) else src_props[k]
+        exp = (repr(()) if opts[k] == 'UNSPECIFIED' else repr(opts[k])) if (opts and k in opts) else src_props[k]
         if have != exp:
             F('c15-namespace-properties:' + k, 'the target namespace has the source namespace\'s properties unless overridden', dict(prop=k, have=have, want=exp))
             break
